@@ -42,6 +42,20 @@ register('C16', 'TLA+ Names/Analysis spec: natural order on character codes and 
          'TLC enumerates problems over names that separate natural from lexicographic order, reversed / strided views, symmetric matrices and binary vectors, and computes the variable list (natural sort specified in TLA+ on character codes), bounds and domains; optyx must report exactly these, also as keys of Solution.values (stubbed solver seams).',
          API_NOTE, 'DESIGN.md 3 (C16)')
 
+HIST_NOTE = 'Trusted: TLC; the abstraction of Solve.tla (objective / constraint classes by degree and integrality, bounds / parameter versions, solver outcome classes) and the concretisation tables in harness/concrete.py; the recorder (harness/recorder.py) that turns real executions into events; SciPy / HiGHS as the solver under the seam. Model checking is exhaustive for the abstract model (fixpoint); conformance covers the replayed behaviours and recorded traces only.'
+register('C13', 'TLA+ Solve spec model-checked to fixpoint; (cache-filled state, edit, observation) triples of its state graph replayed into real Problems; recorded traces validated by TraceSolve.tla',
+         'Solve.tla (problem, four caches, multi-step solve) is model-checked exhaustively (C13_CachesCoherent, C13_SolveFresh hold for histories of any length at the model level); histories covering the invalidation matrix are generated from its state graph, executed on real Problems and compared with fresh Problems; every execution is recorded and must be a behaviour of the spec (cache rebuilt when the spec says it is invalid, bounds handed to the solver are the current ones).',
+         HIST_NOTE, 'DESIGN.md 3 (C13)')
+register('C06', 'TLA+ Solve spec: every solver-outcome behaviour enumerated by TLC replayed through a stubbed seam; status relation checked by trace validation; real-solver families',
+         'C06_OptimalFeasible is model-checked on Solve.tla; TLC enumerates every complete solve behaviour (15 methods x outcome classes x retry) and each is replayed into the real solve() through stubbed minimize / linprog seams; the recorded status must be allowed by the spec for the recorded outcome; generated feasible / infeasible problems are solved with the real SciPy on 13 methods and validated the same way.',
+         HIST_NOTE, 'DESIGN.md 3 (C06)')
+register('C07', 'TLA+ Solve spec behaviours (min and max) replayed through stubbed seams; objective/keys observations validated by TraceSolve.tla; Solution[handle] against spec view names',
+         'Every complete solve behaviour for minimise and maximise over quadratic, linear-with-constant and non-polynomial objectives is replayed with stubbed solvers returning chosen points; the recorder evaluates the user objective at the returned values and compares value keys with the variables occurring, and the trace spec rejects a false observation; Solution[handle] is checked for every view enumerated by TLC.',
+         HIST_NOTE, 'DESIGN.md 3 (C07)')
+register('C20', 'TLA+ Solve spec: TLC-enumerated fault schedules replayed with faults injected at the solver entry and in the k-th callback; globals, outcome and next solve checked; trace validation',
+         'C20_GlobalsRestored / C20_FaultKeepsCaches are model-checked on Solve.tla; every behaviour containing a fault (route x method x exception class x first entry / retry) is replayed with the fault injected at the seam entry and inside fun / jac / hess / constraint callbacks of the real solver, plus build-stage faults; afterwards the warning hook, the recursion limit, the outcome and the next solve (against a fresh-problem baseline) are checked, and all traces validated.',
+         HIST_NOTE, 'DESIGN.md 3 (C20)')
+
 ALL = ['C%02d' % i for i in range(1, 21)]
 
 
